@@ -116,6 +116,8 @@ def run(prop, jobs, design_ref, extra_assumptions=(), functions_note="", extra_r
     )
     if post:
         post(report, results, coverage)
+        if coverage["discharged"] != coverage["obligations"] or report.errors:
+            level = "other"
     C.write_evidence(prop, level, coverage, LIB_AXIOMS + list(extra_assumptions), time.time() - t0, len(report.violations))
     print(f"{prop}: obligations={cnt['obligations']} discharged={cnt['discharged']} known={cnt['known']} undecided={cnt['undecided']} "
           f"violations={cnt['violations']} functions={len(fns)} wall={time.time() - t0:.1f}s", flush=True)
